@@ -321,8 +321,10 @@ def time_shift(z, /, shift, crop=False):
     else:
         f = np.fft.fftfreq(len(z), 1)[f_ix]
 
-    # (single precision suffices for single-precision data only)
-    ph = np.exp(-2j * np.pi * shift * f).astype(np.result_type(z.dtype, np.complex64))
+    # (single precision suffices for single-precision data only; integers of
+    # any width are transformed in double precision)
+    single = z.dtype in (np.float16, np.float32, np.complex64)
+    ph = np.exp(-2j * np.pi * shift * f).astype(np.complex64 if single else np.complex128)
     shifted = pb.fft.ifft(pb.fft.fft(z.data, axis=0) * ph, axis=0)
     shifted = shifted if np.iscomplexobj(z.data) else shifted.real
 
